@@ -42,6 +42,10 @@ def run(ctx):
     ctx.rule('C12.g-round-input-fully-defined', 'what a round hands to its truncated transforms is fully written in that round (tail zeroed): the recovery shards of a new round on the same object do not depend on the round before (clause shared with C05.c)')
     from . import c05 as c05_
     ctx.guard('C12.analysable', ctx.shared, {'C05.c-truncated-ifft-zeroed': 'C12.g-round-input-fully-defined'}, c05_.ifft_rule, ctx, ctx.facts(cfgs[0]), cfgs[0])
+    ctx.rule('C12.j-given-map-marked-by-accepted-adds-only', 'the map of given shards, which the accessors and iterators read to tell a restored shard from a given one, is marked by accepted calls only: no Err exit is reachable after a bit of it was written, so a rejected add does not make restored_original(i) answer None for (or the iterator skip) a shard that was produced (clause shared with C07.atomic, for writes of the bitmap)')
+    from . import c07 as c07_
+    marks_given = lambda key: re.match(r'(call FixedBitSet::|write [^-]*received)', key) is not None
+    ctx.guard('C12.analysable', ctx.shared, {'C07.atomic': 'C12.j-given-map-marked-by-accepted-adds-only'}, c07_.check_cfg, ctx, ctx.facts(cfgs[0]), cfgs[0], {'only': marks_given})
     for cfg in cfgs:
         facts = ctx.facts(cfg)
         ctx.guard('C12.analysable', accessors, ctx, facts, cfg)
